@@ -62,19 +62,23 @@ def rule_L1(ctx: Ctx) -> None:
     for name in ("_node_strings_map", "_token_arr", "coords_to_strings"):
         f = c.methods[name]
         ladders = [n for n in f.node.body if isinstance(n, ast.If) and _modes_in(n.test)]
-        if len(ladders) != 1:
-            ctx.unknown(f, {"ladders": len(ladders)}, "one ladder over tokenization modes")
+        if not ladders:
+            ctx.unknown(f, {"ladders": 0}, "a ladder over tokenization modes")
             continue
         seen = set()
-        n = ladders[0]
         else_raises = False
-        while True:
-            seen |= _modes_in(n.test)
-            if len(n.orelse) == 1 and isinstance(n.orelse[0], ast.If):
-                n = n.orelse[0]
-            else:
-                else_raises = any(isinstance(s, ast.Raise) for s in n.orelse)
-                break
+        for n in ladders:
+            while True:
+                seen |= _modes_in(n.test)
+                if len(n.orelse) == 1 and isinstance(n.orelse[0], ast.If):
+                    n = n.orelse[0]
+                else:
+                    else_raises = else_raises or any(isinstance(s_, ast.Raise) for s_ in n.orelse)
+                    break
+        # (normalised form: every branch returns, the fall-through after the last test raises)
+        last = ladders[-1]
+        after = f.node.body[f.node.body.index(last) + 1:]
+        else_raises = else_raises or (bool(after) and isinstance(after[0], ast.Raise))
         ctx.judge(f, seen == mem and else_raises, {"modes_handled": sorted(seen), "else_raises": else_raises},
                   "the mode ladder handles every TokenizationMode member and raises otherwise", "a mode falls through to the wrong branch / returns None")
     ao = c.methods["is_AOTP"]
@@ -207,8 +211,9 @@ def rule_L4(ctx: Ctx) -> None:
         out = X.assignments_to(f.node, "output")
         ok = len(out) == 1 and X.same_expr(out[0], "[maze.as_tokens(maze_tokenizer) for maze in self.mazes[:limit]]")
         ifs = [n for n in f.node.body if isinstance(n, ast.If)]
+        tail = (ifs[0].orelse or f.node.body[f.node.body.index(ifs[0]) + 1:]) if ifs else []
         ok2 = len(ifs) == 1 and X.U(ifs[0].test) == "join_tokens_individual_maze" and X.same_stmt(ifs[0].body[0], "return [' '.join(tokens) for tokens in output]") \
-            and X.same_stmt(ifs[0].orelse[0], "return output")
+            and len(tail) == 1 and X.same_stmt(tail[0], "return output")
         ctx.judge(f, ok and ok2, {"per_maze": X.U(out[0]) if out else None},
                   "dataset tokenization = per-maze tokenization of self.mazes[:limit] in order; joined with single spaces iff join_tokens_individual_maze",
                   "the limit is ignored/off by one, mazes are reordered, or the join option is inverted")
